@@ -58,13 +58,13 @@ def run(ctx):
     for cfg in cfgs:
         fs = ctx.facts(cfg)
         table = k1(ctx, cfg, fs)
-        k2(ctx, cfg, fs, table)
-        k3(ctx, cfg, fs, table)
-        k4(ctx, cfg, fs)
+        ctx.guard(k2, ctx, cfg, fs, table)
+        ctx.guard(k3, ctx, cfg, fs, table)
+        ctx.guard(k4, ctx, cfg, fs)
         import c08, c18
-        c08.keep_only(ctx, lambda: c18.who(ctx, cfg, fs), lambda o: o.key.startswith(('params::', '<params::')) and 'std::env::' in o.key, 'E.env-absence')
-        k5(ctx, cfg, fs)
-        k6(ctx, cfg, fs)
+        ctx.guard(c08.keep_only, ctx, lambda: c18.who(ctx, cfg, fs), lambda o: o.key.startswith(('params::', '<params::')) and 'std::env::' in o.key, 'E.env-absence')
+        ctx.guard(k5, ctx, cfg, fs)
+        ctx.guard(k6, ctx, cfg, fs)
 
 def k1(ctx, cfg, fs):
     cc = ctx.look(fs.one(r'^error::Message::can_catch$'))
